@@ -154,10 +154,58 @@ Qed.
 
 Ltac simp_st := cbn [st_subs st_recv st_hand st_fly st_acc st_taken st_out].
 
+Lemma set_hand_inv : forall cats s c h, Inv cats s -> (forall snap, h <> HRunning snap) -> Inv cats (set_hand s c h).
+Proof.
+  intros cats s c h [Hcons Hfly Hsnap Hnd Hmono Hsub Htnd Hsupp] Hh. unfold set_hand.
+  constructor; simp_st; try assumption.
+  intros c0 snap Hs. destruct (Z.eq_dec c0 c) as [->|Hne].
+  - rewrite upd_eq in Hs. injection Hs as Hs. exfalso; apply (Hh snap); exact Hs.
+  - rewrite upd_neq in Hs by exact Hne. apply Hsnap; exact Hs.
+Qed.
+
+Lemma supp_all : forall cats s c cat, Inv cats s -> cats c = Some cat ->
+  forallb (fun n => supported cat (n_metric n)) (st_subs s c) = true.
+Proof.
+  intros cats s c cat HI Ecat. apply forallb_forall. intros n Hin.
+  destruct (inv_supp cats s HI c n Hin) as [cat' [E1 E2]]. congruence.
+Qed.
+
+Lemma do_open_eq : forall cats s c s', Inv cats s -> do_open cats s c = Some s' -> s' = set_hand s c HOpening.
+Proof.
+  intros cats s c s' HI H. unfold do_open in H. destruct (cats c) as [cat|] eqn:Ecat; [|discriminate].
+  rewrite (supp_all _ _ _ _ HI Ecat) in H. injection H as <-. reflexivity.
+Qed.
+
+Lemma do_start_eq : forall cats s c s', Inv cats s -> do_start cats s c = Some s' ->
+  s' = mkSt (st_subs s)
+            (match st_recv s c with None => upd (st_recv s) c (Some []) | Some _ => st_recv s end)
+            (upd (st_hand s) c (Some (HRunning (st_subs s c))))
+            (st_fly s) (st_acc s) (st_taken s) (st_out s).
+Proof.
+  intros cats s c s' HI H. unfold do_start in H. destruct (cats c) as [cat|] eqn:Ecat; [|discriminate].
+  rewrite (supp_all _ _ _ _ HI Ecat) in H. injection H as <-. reflexivity.
+Qed.
+
+Lemma do_start_inv : forall cats s c s', Inv cats s -> do_start cats s c = Some s' -> Inv cats s'.
+Proof.
+  intros cats s c s' HI H. rewrite (do_start_eq _ _ _ _ HI H).
+  destruct HI as [Hcons Hfly Hsnap Hnd Hmono Hsub Htnd Hsupp].
+  constructor; simp_st; try assumption.
+  - intros c0. rewrite Hcons. f_equal. unfold queue; simp_st.
+    destruct (st_recv s c) eqn:Er; [reflexivity|].
+    destruct (Z.eq_dec c0 c) as [->|Hne]; [rewrite upd_eq, Er; reflexivity|rewrite upd_neq by exact Hne; reflexivity].
+  - intros c0 snap Hh. destruct (Z.eq_dec c0 c) as [->|Hne].
+    + rewrite upd_eq in Hh. injection Hh as <-. reflexivity.
+    + rewrite upd_neq in Hh by exact Hne. apply Hsnap; exact Hh.
+Qed.
+
+Lemma option_map_some : forall A B (f : A -> B) (x : option A) y, option_map f x = Some y -> exists a, x = Some a /\ y = f a.
+Proof. intros A B f [a|] y H; cbn in H; [injection H as <-; exists a; auto|discriminate]. Qed.
+
 Lemma step_inv : forall cats s e s' o, Inv cats s -> step cats s e = Some (s', o) -> Inv cats s'.
 Proof.
   intros cats s e s' o HI Hstep. destruct HI as [Hcons Hfly Hsnap Hnd Hmono Hsub Htnd Hsupp].
-  destruct e as [c n|c|c m|c| |c|c n|]; cbn [step] in Hstep.
+  destruct e as [c n|c|c|c m|c| |c|c n|]; cbn [step] in Hstep.
   - (* AddMetric *)
     destruct (cats c) as [cat|] eqn:Ecat; [|injection Hstep as <- <-; constructor; assumption].
     destruct (supported cat (n_metric n)) eqn:Hsup; cbn [negb] in Hstep;
@@ -178,28 +226,16 @@ Proof.
       * rewrite upd_eq in Hin. apply in_app_or in Hin. destruct Hin as [Hin|[<-|[]]]; [apply Hsupp; exact Hin|].
         exists cat. split; assumption.
       * rewrite upd_neq in Hin by exact Hne. apply Hsupp; exact Hin.
+  - (* HandlerOpen *)
+    assert (HI : Inv cats s) by (constructor; assumption).
+    destruct (st_hand s c) as [[| | |]|]; try discriminate; destruct (st_recv s c); try discriminate;
+      apply option_map_some in Hstep; destruct Hstep as [s1 [Ho Heq]]; injection Heq as -> ->;
+      rewrite (do_open_eq _ _ _ _ HI Ho); apply set_hand_inv; try exact HI; intros snap; discriminate.
   - (* HandlerStart *)
-    assert (Hgo : forall cat, cats c = Some cat ->
-       (if forallb (fun n => supported cat (n_metric n)) (st_subs s c)
-       then Some (mkSt (st_subs s)
-                   (match st_recv s c with None => upd (st_recv s) c (Some []) | Some _ => st_recv s end)
-                   (upd (st_hand s) c (Some (HRunning (st_subs s c))))
-                   (st_fly s) (st_acc s) (st_taken s) (st_out s), @nil out)
-       else Some (mkSt (st_subs s) (st_recv s) (upd (st_hand s) c (Some HCrashed))
-                   (st_fly s) (st_acc s) (st_taken s) (st_out s), [])) = Some (s', o) -> Inv cats s').
-    { intros cat Ecat H.
-      assert (Hall : forallb (fun n => supported cat (n_metric n)) (st_subs s c) = true).
-      { apply forallb_forall. intros n Hin. destruct (Hsupp c n Hin) as [cat' [E1 E2]]. congruence. }
-      rewrite Hall in H. injection H as <- <-.
-      constructor; simp_st; try assumption.
-      + intros c0. rewrite Hcons. f_equal. unfold queue; simp_st.
-        destruct (st_recv s c) eqn:Er; [reflexivity|].
-        destruct (Z.eq_dec c0 c) as [->|Hne]; [rewrite upd_eq, Er; reflexivity|rewrite upd_neq by exact Hne; reflexivity].
-      + intros c0 snap Hh. destruct (Z.eq_dec c0 c) as [->|Hne].
-        * rewrite upd_eq in Hh. injection Hh as <-. reflexivity.
-        * rewrite upd_neq in Hh by exact Hne. apply Hsnap; exact Hh. }
-    destruct (st_hand s c) as [[| |]|]; try discriminate; destruct (cats c) as [cat|] eqn:Ecat; try discriminate;
-      apply (Hgo cat eq_refl); exact Hstep.
+    assert (HI : Inv cats s) by (constructor; assumption).
+    destruct (st_hand s c) as [[| | |]|]; try discriminate; destruct (st_recv s c); try discriminate;
+      apply option_map_some in Hstep; destruct Hstep as [s1 [Ho Heq]]; injection Heq as -> ->;
+      apply (do_start_inv _ _ _ _ HI Ho).
   - (* ApiMsg *)
     destruct (st_recv s c) as [q|] eqn:Er; [|injection Hstep as <- <-; constructor; assumption].
     injection Hstep as <- <-. constructor; simp_st; try assumption.
@@ -209,7 +245,7 @@ Proof.
     + rewrite upd_neq by exact Hne. unfold acc_of; cbn.
       destruct (c =? c0) eqn:E; [apply Z.eqb_eq in E; subst; contradiction|]. cbn. rewrite app_nil_r. reflexivity.
   - (* Take *)
-    destruct (st_hand s c) as [[|snap|]|] eqn:Eh; try discriminate.
+    destruct (st_hand s c) as [[|snap| |]|] eqn:Eh; try discriminate.
     destruct (st_recv s c) as [[|m q]|] eqn:Er; try discriminate.
     injection Hstep as <- <-. pose proof (Hsnap c snap Eh) as Hs.
     constructor; simp_st; try assumption.
@@ -231,13 +267,9 @@ Proof.
     + rewrite Ht, <- app_assoc. reflexivity.
     + rewrite Ho, flat_map_app. cbn. rewrite app_nil_r. reflexivity.
   - (* HandlerFail *)
-    assert (Hgo : Some (mkSt (st_subs s) (st_recv s) (upd (st_hand s) c (Some HCrashed))
-                         (st_fly s) (st_acc s) (st_taken s) (st_out s), @nil out) = Some (s', o) -> Inv cats s').
-    { intros H. injection H as <- <-. constructor; simp_st; try assumption.
-      intros c0 snap Hh. destruct (Z.eq_dec c0 c) as [->|Hne].
-      - rewrite upd_eq in Hh; discriminate.
-      - rewrite upd_neq in Hh by exact Hne. apply Hsnap; exact Hh. }
-    destruct (st_hand s c) as [[| |]|]; try discriminate; apply Hgo; exact Hstep.
+    assert (HI : Inv cats s) by (constructor; assumption).
+    destruct (st_hand s c) as [[| | |]|]; try discriminate; injection Hstep as <- <-;
+      apply set_hand_inv; try exact HI; intros snap; discriminate.
   - (* AddFault *) injection Hstep as <- <-; constructor; assumption.
   - (* Restart *) injection Hstep as <- <-; constructor; assumption.
 Qed.
@@ -293,7 +325,7 @@ Lemma take_snapshot_current : forall cats s c s' o, Inv cats s -> step cats s (T
             st_subs s' = st_subs s.
 Proof.
   intros cats s c s' o HI Hstep. cbn [step] in Hstep.
-  destruct (st_hand s c) as [[|snap|]|] eqn:Eh; try discriminate.
+  destruct (st_hand s c) as [[|snap| |]|] eqn:Eh; try discriminate.
   destruct (st_recv s c) as [[|m q]|] eqn:Er; try discriminate.
   injection Hstep as <- <-. rewrite (inv_snap cats s HI c snap Eh). exists m. cbn. auto.
 Qed.
@@ -301,18 +333,22 @@ Qed.
 (* ------------------------------------------------------------------ monotonicity / existing unaffected *)
 Lemma step_subs_mono : forall cats s e s' o c, step cats s e = Some (s', o) -> incl (st_subs s c) (st_subs s' c).
 Proof.
-  intros cats s e s' o c Hstep. destruct e as [c1 n|c1|c1 m|c1| |c1|c1 n|]; cbn [step] in Hstep.
+  intros cats s e s' o c Hstep. destruct e as [c1 n|c1|c1|c1 m|c1| |c1|c1 n|]; cbn [step] in Hstep.
   - destruct (cats c1) as [cat|]; [|injection Hstep as <- <-; apply incl_refl].
     destruct (negb (supported cat (n_metric n))); [injection Hstep as <- <-; apply incl_refl|].
     destruct (mem_name n (st_subs s c1)); injection Hstep as <- <-; [apply incl_refl|]. cbn.
     destruct (Z.eq_dec c c1) as [->|Hne]; [rewrite upd_eq; apply incl_appl, incl_refl|rewrite upd_neq by exact Hne; apply incl_refl].
-  - destruct (st_hand s c1) as [[| |]|]; try discriminate; destruct (cats c1); try discriminate;
-      destruct (forallb _ _); injection Hstep as <- <-; apply incl_refl.
+  - destruct (st_hand s c1) as [[| | |]|]; try discriminate; destruct (st_recv s c1); try discriminate;
+      apply option_map_some in Hstep; destruct Hstep as [s1 [Ho Heq]]; injection Heq as -> ->;
+      unfold do_open in Ho; destruct (cats c1); try discriminate; destruct (forallb _ _); injection Ho as <-; apply incl_refl.
+  - destruct (st_hand s c1) as [[| | |]|]; try discriminate; destruct (st_recv s c1); try discriminate;
+      apply option_map_some in Hstep; destruct Hstep as [s1 [Ho Heq]]; injection Heq as -> ->;
+      unfold do_start in Ho; destruct (cats c1); try discriminate; destruct (forallb _ _); injection Ho as <-; apply incl_refl.
   - destruct (st_recv s c1); injection Hstep as <- <-; apply incl_refl.
-  - destruct (st_hand s c1) as [[| |]|]; try discriminate. destruct (st_recv s c1) as [[|]|]; try discriminate.
+  - destruct (st_hand s c1) as [[| | |]|]; try discriminate. destruct (st_recv s c1) as [[|]|]; try discriminate.
     injection Hstep as <- <-; apply incl_refl.
   - destruct (st_fly s); [discriminate|]. injection Hstep as <- <-; apply incl_refl.
-  - destruct (st_hand s c1) as [[| |]|]; try discriminate; injection Hstep as <- <-; apply incl_refl.
+  - destruct (st_hand s c1) as [[| | |]|]; try discriminate; injection Hstep as <- <-; apply incl_refl.
   - injection Hstep as <- <-; apply incl_refl.
   - injection Hstep as <- <-; apply incl_refl.
 Qed.
@@ -320,16 +356,20 @@ Qed.
 Lemma step_taken : forall cats s e s' o, Inv cats s -> step cats s e = Some (s', o) ->
   st_taken s' = st_taken s \/ exists t, st_taken s' = st_taken s ++ [t] /\ t_snap t = st_subs s (t_comp t).
 Proof.
-  intros cats s e s' o HI Hstep. destruct e as [c1 n|c1|c1 m|c1| |c1|c1 n|].
+  intros cats s e s' o HI Hstep. destruct e as [c1 n|c1|c1|c1 m|c1| |c1|c1 n|].
   - cbn [step] in Hstep. destruct (cats c1) as [cat|]; [|injection Hstep as <- <-; left; reflexivity].
     destruct (negb (supported cat (n_metric n))); [injection Hstep as <- <-; left; reflexivity|].
     destruct (mem_name n (st_subs s c1)); injection Hstep as <- <-; left; reflexivity.
-  - cbn [step] in Hstep. destruct (st_hand s c1) as [[| |]|]; try discriminate; destruct (cats c1); try discriminate;
-      destruct (forallb _ _); injection Hstep as <- <-; left; reflexivity.
+  - cbn [step] in Hstep. destruct (st_hand s c1) as [[| | |]|]; try discriminate; destruct (st_recv s c1); try discriminate;
+      apply option_map_some in Hstep; destruct Hstep as [s1 [Ho Heq]]; injection Heq as -> ->;
+      rewrite (do_open_eq _ _ _ _ HI Ho); left; reflexivity.
+  - cbn [step] in Hstep. destruct (st_hand s c1) as [[| | |]|]; try discriminate; destruct (st_recv s c1); try discriminate;
+      apply option_map_some in Hstep; destruct Hstep as [s1 [Ho Heq]]; injection Heq as -> ->;
+      rewrite (do_start_eq _ _ _ _ HI Ho); left; reflexivity.
   - cbn [step] in Hstep. destruct (st_recv s c1); injection Hstep as <- <-; left; reflexivity.
   - right. destruct (take_snapshot_current _ _ _ _ _ HI Hstep) as [m [Ht _]]. eexists; split; [exact Ht|reflexivity].
   - cbn [step] in Hstep. destruct (st_fly s); [discriminate|]. injection Hstep as <- <-; left; reflexivity.
-  - cbn [step] in Hstep. destruct (st_hand s c1) as [[| |]|]; try discriminate; injection Hstep as <- <-; left; reflexivity.
+  - cbn [step] in Hstep. destruct (st_hand s c1) as [[| | |]|]; try discriminate; injection Hstep as <- <-; left; reflexivity.
   - cbn [step] in Hstep. injection Hstep as <- <-; left; reflexivity.
   - cbn [step] in Hstep. injection Hstep as <- <-; left; reflexivity.
 Qed.
@@ -448,19 +488,21 @@ Lemma step_nocrash : forall cats s e s' o, Inv cats s -> is_fault e = false ->
   forall c, st_hand s' c <> Some HCrashed.
 Proof.
   intros cats s e s' o HI Hnf Hnc Hstep c0.
-  destruct e as [c n|c|c m|c| |c|c n|]; cbn [step] in Hstep; try discriminate Hnf.
+  destruct e as [c n|c|c|c m|c| |c|c n|]; cbn [step] in Hstep; try discriminate Hnf.
   - destruct (cats c) as [cat|]; [|injection Hstep as <- <-; apply Hnc].
     destruct (negb (supported cat (n_metric n))); [injection Hstep as <- <-; apply Hnc|].
     destruct (mem_name n (st_subs s c)); injection Hstep as <- <-; [apply Hnc|]. simp_st.
     destruct (Z.eq_dec c0 c) as [->|Hne]; [rewrite upd_eq; discriminate|rewrite upd_neq by exact Hne; apply Hnc].
-  - assert (Hall : forall cat, cats c = Some cat -> forallb (fun n => supported cat (n_metric n)) (st_subs s c) = true).
-    { intros cat Ecat. apply forallb_forall. intros n Hin.
-      destruct (inv_supp cats s HI c n Hin) as [cat' [E1 E2]]. congruence. }
-    destruct (st_hand s c) as [[| |]|]; try discriminate; destruct (cats c) as [cat|] eqn:Ecat; try discriminate;
-      rewrite (Hall cat eq_refl) in Hstep; injection Hstep as <- <-; simp_st;
+  - destruct (st_hand s c) as [[| | |]|]; try discriminate; destruct (st_recv s c); try discriminate;
+      apply option_map_some in Hstep; destruct Hstep as [s1 [Ho Heq]]; injection Heq as -> ->;
+      rewrite (do_open_eq _ _ _ _ HI Ho); unfold set_hand; simp_st;
+      (destruct (Z.eq_dec c0 c) as [->|Hne]; [rewrite upd_eq; discriminate|rewrite upd_neq by exact Hne; apply Hnc]).
+  - destruct (st_hand s c) as [[| | |]|]; try discriminate; destruct (st_recv s c); try discriminate;
+      apply option_map_some in Hstep; destruct Hstep as [s1 [Ho Heq]]; injection Heq as -> ->;
+      rewrite (do_start_eq _ _ _ _ HI Ho); simp_st;
       (destruct (Z.eq_dec c0 c) as [->|Hne]; [rewrite upd_eq; discriminate|rewrite upd_neq by exact Hne; apply Hnc]).
   - destruct (st_recv s c); injection Hstep as <- <-; apply Hnc.
-  - destruct (st_hand s c) as [[| |]|]; try discriminate. destruct (st_recv s c) as [[|]|]; try discriminate.
+  - destruct (st_hand s c) as [[| | |]|]; try discriminate. destruct (st_recv s c) as [[|]|]; try discriminate.
     injection Hstep as <- <-; apply Hnc.
   - destruct (st_fly s); [discriminate|]. injection Hstep as <- <-; apply Hnc.
   - injection Hstep as <- <-; apply Hnc.
@@ -494,8 +536,8 @@ Lemma fault_frame : forall cats s e s' o,
   st_taken s' = st_taken s /\ st_acc s' = st_acc s /\
   (match e with HandlerFail _ => True | _ => s' = s end).
 Proof.
-  intros cats s e s' o He Hstep. destruct e as [c n|c|c m|c| |c|c n|]; try contradiction; cbn [step] in Hstep.
-  - destruct (st_hand s c) as [[| |]|]; try discriminate; injection Hstep as <- <-; simp_st; repeat split; reflexivity.
+  intros cats s e s' o He Hstep. destruct e as [c n|c|c|c m|c| |c|c n|]; try contradiction; cbn [step] in Hstep.
+  - destruct (st_hand s c) as [[| | |]|]; try discriminate; injection Hstep as <- <-; unfold set_hand; simp_st; repeat split; reflexivity.
   - injection Hstep as <- <-; repeat split; reflexivity.
   - injection Hstep as <- <-; repeat split; reflexivity.
 Qed.
@@ -503,11 +545,29 @@ Qed.
 Lemma handler_start_runs : forall cats es s c s' o, run cats init es = Some s ->
   step cats s (HandlerStart c) = Some (s', o) -> st_hand s' c = Some (HRunning (st_subs s c)).
 Proof.
-  intros cats es s c s' o H Hstep. pose proof (reach_inv _ _ _ H) as HI.
-  assert (Hall : forall cat, cats c = Some cat -> forallb (fun n => supported cat (n_metric n)) (st_subs s c) = true).
-  { intros cat Ecat. apply forallb_forall. intros n Hin.
-    destruct (inv_supp cats s HI c n Hin) as [cat' [E1 E2]]. congruence. }
-  cbn [step] in Hstep.
-  destruct (st_hand s c) as [[| |]|]; try discriminate; destruct (cats c) as [cat|] eqn:Ecat; try discriminate;
-    rewrite (Hall cat eq_refl) in Hstep; injection Hstep as <- <-; simp_st; apply upd_eq.
+  intros cats es s c s' o H Hstep. pose proof (reach_inv _ _ _ H) as HI. cbn [step] in Hstep.
+  destruct (st_hand s c) as [[| | |]|]; try discriminate; destruct (st_recv s c); try discriminate;
+    apply option_map_some in Hstep; destruct Hstep as [s1 [Ho Heq]]; injection Heq as -> ->;
+    rewrite (do_start_eq _ _ _ _ HI Ho); simp_st; apply upd_eq.
 Qed.
+
+(* the opening call: only the handler's own state changes; a request arriving while it is pending sends the
+   handler back to "starting" (the task is cancelled in that await and replaced) *)
+Lemma open_frame : forall cats es s c s' o, run cats init es = Some s ->
+  step cats s (HandlerOpen c) = Some (s', o) -> s' = set_hand s c HOpening /\ o = [] /\ st_recv s c = None.
+Proof.
+  intros cats es s c s' o H Hstep. pose proof (reach_inv _ _ _ H) as HI. cbn [step] in Hstep.
+  destruct (st_hand s c) as [[| | |]|]; try discriminate; destruct (st_recv s c) eqn:Er; try discriminate;
+    apply option_map_some in Hstep; destruct Hstep as [s1 [Ho Heq]]; injection Heq as -> ->;
+    rewrite (do_open_eq _ _ _ _ HI Ho); auto.
+Qed.
+
+Lemma add_while_opening : forall cats s c n cat,
+  st_hand s c = Some HOpening -> cats c = Some cat -> supported cat (n_metric n) = true -> ~ In n (st_subs s c) ->
+  exists s', step cats s (AddMetric c n) = Some (s', []) /\ st_hand s' c = Some HStarting /\
+             st_subs s' c = st_subs s c ++ [n] /\ st_recv s' = st_recv s.
+Proof.
+  intros cats s c n cat Hh Hc Hs Hn. cbn [step]. rewrite Hc, Hs. cbn [negb].
+  apply mem_name_false in Hn. rewrite Hn. eexists. split; [reflexivity|]. simp_st. rewrite !upd_eq. auto.
+Qed.
+
